@@ -36,25 +36,29 @@ type Case struct {
 }
 
 type hstate struct {
-	id       int
-	rel      cl.ReleaseFunc
-	counted  bool
-	released bool // some release call has been started on it
-	cancel   context.CancelFunc
+	id        int
+	rel       cl.ReleaseFunc
+	counted   bool
+	released  bool // some release call has been started on it
+	cancel    context.CancelFunc
+	ctx       context.Context // what Acquire returned
+	parent    bool            // some other Acquire used ctx as its parent
+	cancelled bool
 }
 
 type world struct {
-	mu       sync.Mutex
-	n        int
-	running  int
-	maxRun   int
-	holders  []*hstate
-	excess   string
-	ntSeen   bool
-	hookMu   sync.Mutex
-	hookHits int
-	pauses   []int
-	waiting  []*pausedHook
+	mu        sync.Mutex
+	n         int
+	running   int
+	maxRun    int
+	holders   []*hstate
+	excess    string
+	ntSeen    bool
+	nestedAcq int
+	hookMu    sync.Mutex
+	hookHits  int
+	pauses    []int
+	waiting   []*pausedHook
 }
 
 type pausedHook struct {
@@ -104,8 +108,8 @@ type worker struct {
 	hctx   context.Context
 	h      *hstate
 	lastH  *hstate
-	depth  int  // nesting of temp releases
-	hDepth int  // depth at which the current holder's outermost temp release started (0 = none)
+	depth  int // nesting of temp releases
+	hDepth int // depth at which the current holder's outermost temp release started (0 = none)
 	exited chan struct{}
 }
 
@@ -138,15 +142,35 @@ func (wk *worker) exec(st Step) string {
 		// every holder gets a context of its own that a later step may cancel (while it runs, or
 		// while it is inside a temporary release): cancellation after Acquire returned must not
 		// change who holds a token
-		hc, hcancel := context.WithCancel(wk.base)
+		// Sometimes the context handed to Acquire descends from the context another holder got
+		// back from its own Acquire (work handed to a helper goroutine together with the
+		// caller's context): that is a separate Acquire and needs a token of its own.
+		base := wk.base
+		nested := false
+		if st.Arg%3 == 0 {
+			w.mu.Lock()
+			for i := len(w.holders) - 1; i >= 0; i-- {
+				p := w.holders[i]
+				if p.ctx != nil && !p.cancelled && p.ctx.Err() == nil {
+					p.parent = true // never cancelled from now on (a cancelled parent would make this Acquire a no-op)
+					base, nested = p.ctx, true
+					break
+				}
+			}
+			w.mu.Unlock()
+		}
+		hc, hcancel := context.WithCancel(base)
 		ctx, rel := cl.Acquire(hc)
-		if wk.base.Err() != nil {
+		if base.Err() != nil {
 			hcancel()
 			return "acq-cancelled"
 		}
 		w.mu.Lock()
-		h := &hstate{id: len(w.holders), rel: rel, cancel: hcancel}
+		h := &hstate{id: len(w.holders), rel: rel, cancel: hcancel, ctx: ctx}
 		w.holders = append(w.holders, h)
+		if nested {
+			w.nestedAcq++
+		}
 		w.mu.Unlock()
 		wk.h, wk.hctx = h, ctx
 		w.count(h, "Acquire")
@@ -186,6 +210,11 @@ func (wk *worker) exec(st Step) string {
 			return "skip"
 		}
 		h := w.holders[st.Arg%len(w.holders)]
+		if h.parent {
+			w.mu.Unlock()
+			return "skip"
+		}
+		h.cancelled = true
 		w.mu.Unlock()
 		h.cancel()
 		return "cancelHolder"
